@@ -892,7 +892,14 @@ class SetIndex(BaseSetIndexSortValues):
             if self.frame.npartitions > 1:
                 expr = RepartitionToFewer(expr, 1)
 
-            index_set = SetIndexBlockwise(expr, self._other, self.drop, None)
+            # keep the divisions this expression reports (``_divisions`` returns
+            # the user's divisions) on the lowered single-partition expression
+            new_divisions = (
+                self.user_divisions
+                if self.user_divisions is not None and len(self.user_divisions) == 2
+                else None
+            )
+            index_set = SetIndexBlockwise(expr, self._other, self.drop, new_divisions)
             return SortIndexBlockwise(index_set)
 
         if self.user_divisions is None:
